@@ -661,7 +661,8 @@ def call_extern(I, fn, args, kwargs):
         if nm == "round":
             if not any(isinstance(a, Sym) for a in args):
                 return round(*args)
-            f = I.ufun("round3", z3.RealSort(), z3.RealSort())
+            nd = args[1] if len(args) > 1 and isinstance(args[1], int) else ("n" if len(args) > 1 else 0)
+            f = I.ufun(f"round_{nd}", z3.RealSort(), z3.RealSort())
             return SReal(f(_t(args[0]) if _t(args[0]).sort() == z3.RealSort() else z3.ToReal(_t(args[0]))))
         if nm in ("min", "max"):
             xs = args if len(args) > 1 else I.iterate(args[0])
